@@ -238,7 +238,16 @@ pub fn plan(tier: Tier) -> Plan {
           jobs.push(retire_job(first, form, 7, per + 2, format!("{}:first-input-of:{}", pname(&prod), op2.name())));
         }
       }
-      // producer as the inner of a flattening operator
+    }
+    // producer as the inner observable of a flattening operator, output cut
+    for kind in [FlatKind::MergeAll(2), FlatKind::ConcatAll, FlatKind::FlatMap, FlatKind::ConcatMap, FlatKind::Flatten] {
+      for cut in [Op1::Take(1), Op1::Take(2), Op1::First, Op1::TakeWhile(P::Lt1), Op1::TakeUntilTimer(2)] {
+        for inners in [vec![InnerSpec::Ticker(1)], vec![InnerSpec::Ticker(2), InnerSpec::Ticker(1)]] {
+          n_pipes += 1;
+          let p = Pipe::hot(0).o1(Op1::Flat(kind, inners)).o1(cut.clone());
+          jobs.push(retire_job(p, form, 7, 4, format!("interval:inner-of:{}", Op1::Flat(kind, vec![]).name())));
+        }
+      }
     }
     // tickers owned by operators over a hot source
     for t in [Op1::BufferWithTime(1), Op1::BufferWithCountAndTime(2, 1), Op1::SampleInterval(1)] {
